@@ -1,5 +1,74 @@
 package genwl
 
-import "verifharness/monitor"
+import (
+	"encoding/json"
+	"fmt"
+	"os"
+	"strings"
 
-func runReplay(cfg *config, res *monitor.Result) {}
+	"verifharness/monitor"
+)
+
+// runReplay re-runs the property's workload restricted to the (package, message type) named by a replay
+// record. Every case list is a pure function of (seed, property, package, message type), so the cases that
+// produced the recorded violation are regenerated exactly; the run then reports whether the recorded
+// signature shows up again and prints the witnesses (panic stacks included).
+func runReplay(cfg *config, res *monitor.Result, dispatch func()) {
+	raw, err := os.ReadFile(cfg.replay)
+	if err != nil {
+		res.Inconc("replay: " + err.Error())
+		return
+	}
+	var rec struct {
+		Sig     string         `json:"sig"`
+		What    string         `json:"what"`
+		Witness map[string]any `json:"witness"`
+	}
+	if err := json.Unmarshal(raw, &rec); err != nil {
+		res.Inconc("replay: " + err.Error())
+		return
+	}
+	pkg, _ := rec.Witness["package"].(string)
+	msg, _ := rec.Witness["message"].(string)
+	if pkg != "" {
+		found := false
+		for _, p := range cfg.pkgs {
+			found = found || p.GoPkg == pkg
+		}
+		if !found {
+			res.Inconc("replay: package " + pkg + " is not part of the corpus generated for this tier/seed")
+			return
+		}
+	}
+	cfg.onlyPkg, cfg.onlyMsg = pkg, msg
+	if strings.Contains(rec.Sig, ":concurrent:") {
+		os.Setenv("VERIF_"+cfg.prop+"_PHASE", "concurrent")
+	}
+	cfg.shard, cfg.nshard = 0, 1
+	fmt.Printf("replay: %s\n  recorded: %s\n  re-running %s restricted to package=%q message=%q (tier=%s seed=%d)\n", rec.Sig, rec.What, cfg.prop, pkg, msg, cfg.tier, cfg.seed)
+	dispatch()
+	vs := res.SortedViolations()
+	hit := false
+	for _, v := range vs {
+		mark := " "
+		if v.Sig == rec.Sig {
+			mark, hit = "*", true
+		}
+		fmt.Printf("  %s %s (x%d)\n      %s\n", mark, v.Sig, v.Count, v.What)
+		if v.Sig == rec.Sig {
+			w, _ := json.MarshalIndent(v.Witness, "      ", " ")
+			if len(w) > 6000 {
+				w = append(w[:6000], "..."...)
+			}
+			fmt.Printf("      witness: %s\n", w)
+		}
+	}
+	switch {
+	case hit:
+		fmt.Println("replay: the recorded violation REPRODUCES (*)")
+	case len(vs) > 0:
+		fmt.Println("replay: the recorded signature did not reappear, other violations did")
+	default:
+		fmt.Println("replay: no violation on this tree")
+	}
+}
